@@ -73,7 +73,8 @@ class SimTerminal:
         # AL status
         if addr <= 0x130 < addr + n:
             self.al_poll()
-            v = self.al_state | (0x10 if self.al_error else 0)
+            v = self.al_state | (0x10 if self.al_error else 0) | \
+                getattr(self, "al_extra", 0)
             struct.pack_into("<H", out, 0x130 - addr, v)
             if addr <= 0x134 and 0x136 <= addr + n:
                 struct.pack_into("<H", out, 0x134 - addr, self.al_code)
